@@ -217,7 +217,7 @@ func buildGenFiles(g GenSpec) (fs []*ach.File, err error) {
 		}
 	}()
 	r := rng.New(g.Seed)
-	o := gen.Opts{Returns: true, NOC: true, Addenda: true, MaxBatches: 3, MaxEntries: 4}
+	o := gen.Opts{Returns: true, NOC: true, Addenda: true, Offset: true, OffsetReturns: true, MaxBatches: 3, MaxEntries: 4}
 	for i := 0; i < g.N; i++ {
 		switch {
 		case i > 0 && r.Chance(1, 6):
